@@ -217,15 +217,26 @@ impl NoGoodStore {
                 DuplicateElemination::None => true,
                 DuplicateElemination::Equiv => !self.store[idx].contains(&nogood),
                 DuplicateElemination::Subsume => {
-                    self.store
-                        .iter_mut()
-                        .enumerate()
-                        .for_each(|(cur_idx, ng_vec)| {
-                            if idx >= cur_idx {
-                                ng_vec.retain(|ng| !ng.is_violating(&nogood));
-                            }
-                        });
-                    true
+                    // a stored nogood which is a subset of the new one already excludes everything the new one excludes
+                    if self
+                        .store
+                        .iter()
+                        .take(idx + 1)
+                        .any(|ng_vec| ng_vec.iter().any(|ng| ng.is_violating(&nogood)))
+                    {
+                        false
+                    } else {
+                        // drop the stored nogoods which are subsumed by the new one (its supersets)
+                        self.store
+                            .iter_mut()
+                            .enumerate()
+                            .for_each(|(cur_idx, ng_vec)| {
+                                if idx <= cur_idx {
+                                    ng_vec.retain(|ng| !nogood.is_violating(ng));
+                                }
+                            });
+                        true
+                    }
                 }
             } {
                 self.store[idx].push(nogood);
